@@ -272,6 +272,8 @@ def lib_pi(mod, p):
     return float(v)
 
 
+# Toth and Jensen-Seaton integrate numerically with scipy.quad: one pressure per call
+SCALAR_ONLY = ("Toth", "JensenSeaton")
 _NZ = {"Henry": 1, "Langmuir": 2, "DSLangmuir": 4, "TSLangmuir": 6, "Quadratic": 4, "BET": 3, "GAB": 3,
        "TemkinApprox": 3, "Toth": 3, "JensenSeaton": 4, "Freundlich": 2, "DR": 2, "DA": 3}
 # pressure representations with the two relative modes drawn about as often as the eight absolute units together
@@ -356,6 +358,21 @@ def check_model_value(desc, ctx, tag="value"):
                   tag, abs(lib - ref) if math.isfinite(lib) else math.inf, tol)
         v.detail["diff"] = lib - ref
         raise v
+    if tag == "value" and desc["model"] not in SCALAR_ONLY:
+        # the same model asked for several pressures in one call (documented float or array): one value per pressure,
+        # each the value the single call gives
+        ps = [p, _r6(p * 0.5), _r6(p * 0.125)]
+        many = np.asarray(mod.spreading_pressure(np.array(ps)), dtype=float)
+        ctx.label("array_call")
+        if many.shape != (3,):
+            raise Violation(f"{desc['model']} {desc['params']}: spreading_pressure(array of 3 pressures {ps}) returned shape "
+                            f"{many.shape} ({many!r}), one value per pressure expected", tag="array_shape")
+        for q, got in zip(ps, many):
+            one = lib_pi(mod, q)
+            t = tol_pi(desc, one)
+            if not (math.isfinite(got) and abs(got - one) <= t):
+                raise _viol(f"{desc['model']} {desc['params']}: spreading_pressure(array {ps}) gives {got!r} at {q!r}, "
+                            f"the single call gives {one!r}", "array_value", abs(got - one), t)
     ctx.nt(_nt_key(desc, p), desc)
 
 
@@ -455,6 +472,14 @@ def check_model_units(desc, ctx):
         raise _viol(f"{model} {desc['params']} ({desc['adsorbate']} at {desc['T']} K, isotherm in {nat}): "
                     f"spreading_pressure_at({pq!r}, {kwargs}) = {conv!r} but the same pressure in isotherm units "
                     f"({p!r}) gives {native!r}", "unit_invariance", abs(conv - native), tol)
+    if model not in SCALAR_ONLY:
+        # several pressures in one call (documented float or list), in the query representation
+        pq2 = ru.conv_pressure(_r6(p * 0.5), nat, qry, fluid, desc["T"])
+        many = np.asarray(iso.spreading_pressure_at([pq, pq2], **kwargs), dtype=float)
+        one2 = float(iso.spreading_pressure_at(pq2, **kwargs))
+        if many.shape != (2,) or not (abs(many[0] - conv) <= 1e-12 * abs(conv) and abs(many[1] - one2) <= 1e-12 * abs(one2)):
+            raise Violation(f"{model} {desc['params']} (isotherm in {nat}): spreading_pressure_at([{pq!r}, {pq2!r}], {kwargs}) "
+                            f"= {many!r}, the single calls give {conv!r} and {one2!r}", tag="list_call")
     ctx.nt(_nt_key(desc, p, nat, qry), desc)
 
 
